@@ -37,6 +37,7 @@ var (
 	ErrInvalidSubscriber      error = errors.New("service: Invalid subscriber")
 	ErrBufferNotReady         error = errors.New("service: buffer is not ready")
 	ErrBufferInsufficientData error = errors.New("service: buffer has insufficient data")
+	ErrServerClosed           error = errors.New("service: server closed")
 )
 
 // Default server configuration.
@@ -449,6 +450,12 @@ func (svr *Server) handleConnection(c io.Closer) (svc *service, err error) {
 	}
 	svc.setConnect(req)
 
+	// The server may have been closed while this connection was being set up:
+	// Close only stops the connections it knows of.
+	if svr.closing() {
+		return nil, ErrServerClosed
+	}
+
 	resp.SetReturnCode(message.ConnectionAccepted)
 
 	if err = writeMessage(c, resp); err != nil {
@@ -467,9 +474,25 @@ func (svr *Server) handleConnection(c io.Closer) (svc *service, err error) {
 	svr.svcs = append(svr.svcs, svc)
 	svr.mu.Unlock()
 
+	// Close may have taken its list of connections just before this one was added.
+	if svr.closing() {
+		svc.stop()
+		return nil, ErrServerClosed
+	}
+
 	log.Debugf("(%s) Connection established", svc.cid())
 
 	return svc, nil
+}
+
+// closing reports whether Close has been called.
+func (svr *Server) closing() bool {
+	select {
+	case <-svr.quit:
+		return true
+	default:
+		return false
+	}
 }
 
 func (svr *Server) checkConfiguration() error {
